@@ -45,6 +45,7 @@ type dNode struct {
 	tgp            bool
 	unmanaged      bool
 	notReady       bool
+	readyUnknown   bool
 	terminating    bool // NodeClaim carries InstanceTerminating=True
 	labels         map[string]string
 }
@@ -129,7 +130,7 @@ func buildDisrupt(dw dWorld) *DEnv {
 		if of.Zone == "" {
 			panic(fmt.Sprintf("no offering %s/%s/%s in catalog", n.typ, n.zone, n.ct))
 		}
-		spec := world.NodeSpec{Name: n.name, Pool: n.pool, Type: t, Offer: of, Stage: n.stage, Deleting: n.deleting, NotReady: n.notReady, Labels: n.labels, Created: world.Epoch.Add(-3 * time.Hour)}
+		spec := world.NodeSpec{Name: n.name, Pool: n.pool, Type: t, Offer: of, Stage: n.stage, Deleting: n.deleting, NotReady: n.notReady, ReadyUnknown: n.readyUnknown, Labels: n.labels, Created: world.Epoch.Add(-3 * time.Hour)}
 		if n.unmanaged {
 			spec.Pool = ""
 		}
